@@ -397,6 +397,17 @@ func c18RoundTrip(c *engine.Case, pkg *appPkg, uplink bool, cid byte, v appPaylo
 			return
 		}
 	}
+	// ... and one that last decoded a longer or a shorter input (a payload with a variable part whose
+	// length the value remembers)
+	for _, prev := range [][]byte{append(append([]byte(nil), enc...), 0x5A, 0x5A, 0x5A, 0x5A, 0x5A, 0x5A, 0x5A), enc[:len(enc)/2]} {
+		if used, ok := pkg.payload(uplink, cid); ok {
+			used.UnmarshalBinary(prev)
+			if err := used.UnmarshalBinary(enc); err != nil || deepPrint(used) != deepPrint(v) {
+				c.Fail(class+"/decode-into-used-value-differs", fmt.Sprintf("%x decoded into a value that had decoded %x before gives %s (err %v), expected %s", enc, prev, deepPrint(used), err, deepPrint(v)), nil)
+				return
+			}
+		}
+	}
 	// the same value with every byte-slice field held as a window into a larger buffer
 	// (spare capacity, other bytes behind it): nothing about the encoding may change
 	if respliceBytes(reflect.ValueOf(fresh)) {
